@@ -444,7 +444,6 @@ func (ia *intSetAnalysis) at(v ssa.Value, blk *ssa.BasicBlock, depth int) intSet
 	return isBottom()
 }
 
-
 // origins: the values v can stem from where control is in block use — phis are opened, results of package functions
 // are followed into the returns that agree with what is known about the other results of the call (as in resultAt).
 func (ia *intSetAnalysis) origins(v ssa.Value, use *ssa.BasicBlock, depth int) []ssa.Value {
